@@ -27,13 +27,15 @@ PROPS_FILE = 'Props/C11.v'
 MODEL_FILES = ['Heap/Heap.v']
 K_NAME = ('K_heap (Heap.check_kcase extracted to OCaml: run_hevents = deepcopy with memo / VectorContainer.copy / BaseLinker.copy / the '
           '__init__ chain / reindex / every public operation as primitive heap actions, vs the real objects: the tree below every '
-          'root (instances AND class objects) and the shared-object scan of every pair of roots)')
+          'root (instances AND class objects) and the shared-object scan of every pair of roots; a case agrees when it agrees under '
+          'one of the two memo policies of copy() the property allows: a fresh deepcopy memo per __dict__ entry, as the code does, or '
+          'one memo for all entries)')
 RULE = ('a case is a history over containers, parser-style BaseModel classes (CHECK is ENDOGENOUS or a separate list), Alias/Tracer '
         'mixin combinations and linkers with two submodels: instantiation (range / tuple / list / caller-shared list span, strict), '
         'the three copy routes at random points, reindex, operations on either side (item / whole-series / scalar assignment, '
         'add_variable of five dtypes, attribute sets, strict, list mutations of names / check / endogenous / index / class lists, alias '
         'dict writes, solve_t with scripted _evaluate incl. traced solves, trace_t, Trace.names mutation, linker solve and submodel '
-        'writes), operations that raise included (a traced operation that raises half-way is replayed with the labels it stored). '
+        'writes, storing one of the object\'s own lists under a second attribute), operations that raise included (a traced operation that raises half-way is replayed with the labels it stored). '
         'Non-trivial = at least two derived roots (instance / copy / sibling / reindex) and at least one successful operation after '
         'them; distinct by hash of the case.')
 TRUSTED = ['walker of real objects -> (kind, cells) trees, identity scan (id()) and the scalar encoding in harness/props/C11.py',
@@ -49,7 +51,8 @@ ASSUMPTIONS = ['claim is PARTIAL: the heap model abstracts CPython object semant
                'mirrors that sharing and K compares it',
                'equality at copy time = equality of the observable state (orphan `_name` arrays that no accessor reaches, left by '
                '__init__ of a class whose NAMES list was extended after the original was created, are not compared); aliasing BETWEEN '
-               'components that the copy separates (Trace.names is model.names, C17) is not a C11 failure, aliasing it ADDS is',
+               'entries of one object (only the user creates it: m.mine = m.names) may be kept or dropped by copy() - both memo policies '
+               'are accepted by K and covered by the theorems - aliasing the copy ADDS is a failure',
                'traced models only get float variables (NumPy coerces the mixed column of a trace; not modelled)']
 EXHAUSTIVE = {'quick': False, 'thorough': False}
 CASE_TIMEOUT = 30
@@ -309,6 +312,10 @@ def make_class(desc, idx):
         bases.append(TracerMixin)
     if desc['alias'] is not None:
         bases.append(AliasMixin)
+    if desc.get('pandas'):
+        # PandasIndexFeaturesMixin only overrides reindex() (C12); stacked here to have the whole mixin tower in the MRO of __init__ / copy()
+        from fsic.extensions.model import PandasIndexFeaturesMixin
+        bases.append(PandasIndexFeaturesMixin)
     ns = {}
     if desc['kind'] != 'container':
         endo = list(desc['endo'])
@@ -1174,6 +1181,7 @@ def nontrivial(case, obs):
 
 def bucket(case, obs):
     ks = sorted({('parsed-' if d.get('parsed') else '') + d['kind'] + ('+alias' if d['alias'] is not None else '') + ('+tracer' if d['tracer'] else '')
+                 + ('+pandas' if d.get('pandas') else '')
                  for d in case['classes']})
     routes = sorted({ev[2] for ev in case['events'] if ev[0] == 'copy'})
     return ','.join(ks) + '/' + ','.join(routes)
@@ -1238,6 +1246,8 @@ def gen_case(rng, flavour, uniq):
             'check': None if rng.random() < 0.6 else list(endo[:1]), 'lags': rng.choice([0, 1]), 'leads': rng.choice([0, 0, 1]),
             'alias': alias, 'preferred': ([rng.choice(list(alias))] if alias and rng.random() < 0.5 else []),
             'tracer': tracer, 'trace_vars': (None if rng.random() < 0.55 else list(endo)) if tracer else None}
+    if flavour in ('alias', 'parsed', 'linker') and rng.random() < 0.5:     # (flavours without reindex events)
+        desc['pandas'] = True
     if flavour == 'container':
         desc.update(endo=[], exo=[], check=None, lags=0, leads=0)
     if parsed:
@@ -1520,14 +1530,17 @@ def corpus_cases():
                 ['op', 1, ['trace_t', 2, 'lbl', trace, True]], ['op', 4, ['tnames_append', 1, 'G']]]
         out.append({'classes': [d], 'shared_spans': [], 'events': evs, 'flavour': 'tracer'})
     # aliases, strict, object / str / bool / int variables, user list attributes, every list mutated before the copies
-    d = dict(model, alias={'GDP': 'Y', 'AL2': 'G'}, preferred=['GDP'])
+    # (the whole mixin tower in the MRO; the user aliases the object's own `names` and `check` lists under further attributes)
+    d = dict(model, alias={'GDP': 'Y', 'AL2': 'G'}, preferred=['GDP'], tracer=True, trace_vars=None, pandas=True)
     evs = [init('list', strict=True), ['op', 1, ['addvar', 'V1', [None, None, None], 'object']], ['op', 1, ['addvar', 'V2', ['a', 'bb', 'c'], 'str']],
            ['op', 1, ['addvar', 'V3', [True, False, True], 'bool']], ['op', 1, ['addvar', '_h', [1, 2, 3], 'int']],
            ['op', 1, ['strict', False]], ['op', 1, ['setattrlist', 'spa', [1, 2]]], ['op', 1, ['setattr', 'x_', 'x']], ['op', 1, ['strict', True]],
            ['op', 1, ['lappend', 'check', 'C']], ['op', 1, ['lappend', 'endogenous', 'G']], ['op', 1, ['lappend', 'names', 'NEWNAME']],
            ['op', 1, ['dictset', 'aliases', 'NEWAL', 'C']], ['op', 1, ['lappend', 'preferred_names', 'AL2']],
-           ['op', 1, ['solve', 1, [['Y', h(4.0)], ['C', h(5.0)]], None]], ['op', 1, ['setattr', 'lags', 2]]]
+           ['op', 1, ['solve', 1, [['Y', h(4.0)], ['C', h(5.0)]], None]], ['op', 1, ['setattr', 'lags', 2]],
+           ['op', 1, ['strict', False]], ['op', 1, ['setattr_own', 'mine', 'names']], ['op', 1, ['setattr_own', 'ind', 'check']]]
     evs += [['copy', 1, r] for r in routes]
+    evs += [['op', 2, ['lappend', 'mine', 'ZZ']], ['op', 1, ['lappend', 'ind', 'Y']]]
     evs += [['init', 0, {'span': {'kind': 'range', 'start': 2000, 'n': 3}, 'strict': False, 'initial': {}}],
             ['op', 2, ['setitem', 'GDP', 0, h(9.5), 'label']], ['op', 3, ['lappend', 'check', 'G']], ['op', 0, ['lappend', 'CHECK', 'G']],
             ['op', 5, ['lappend', 'endogenous', 'C']], ['op', 4, ['setseq', 'AL2', [h(1.5), h(2.5), h(3.5)], 'item']]]
